@@ -467,8 +467,8 @@ impl Property for C09 {
     }
     fn runs(&self, tier: Tier) -> u64 {
         match tier {
-            Tier::Quick => 300_000,
-            Tier::Thorough => 8_000_000,
+            Tier::Quick => 2_000_000,
+            Tier::Thorough => 60_000_000,
         }
     }
     fn probe_names(&self) -> &'static [&'static str] {
@@ -517,7 +517,13 @@ impl Property for C09 {
         };
         let (caps, disc) = gen_caps_disc(src);
         let large = src.draw(5) < 3;
-        let bbox = if large { [-40, -40, 110, 100] } else { gen_small_box(src) };
+        let bbox = if large {
+            [-40, -40, 110, 100]
+        } else {
+            // a small box around the place the image is drawn at
+            let b = gen_small_box(src);
+            [img.at[0] + b[0].clamp(-6, 6), img.at[1] + b[1].clamp(-6, 6), b[2], b[3]]
+        };
         let n_ext = src.draw(3);
         let mut extremes = Vec::new();
         for _ in 0..n_ext {
